@@ -63,7 +63,12 @@ class Gen:
         cases = []
         for _ in range(r.randint(1, 3)):
             self.probe += 1
-            cases.append([self.tree(depth - 1), ['Tuple', [['Fn', ['probe', self.probe]], ['Val', 'case%d' % self.probe]]]])
+            val = ['Tuple', [['Fn', ['probe', self.probe]], ['Val', 'case%d' % self.probe]]]
+            if r.random() < 0.25:
+                # the value spec of the matched case fails: the error must propagate, default or not, and no later case is tried
+                val = ['Tuple', [['Fn', ['probe', self.probe]], r.choice([['Str', 'zz__missing'], ['Fn', ['raise', 'ValueError']],
+                                                                         ['Match', ['Lit', 'never-equal'], None]])]]
+            cases.append([self.tree(depth - 1), val])
         return ['Switch', cases, default]
 
     def check(self):
@@ -124,7 +129,8 @@ python_snippet = c03.python_snippet
 
 def direct_oracle(case, out):
     if 'raise' in out and case['spec'][0] in ('And', 'Or', 'Not', 'Switch', 'MExpr', 'M'):
-        if 'GlomError' in out.get('isa', []) and out['raise'] not in ('MatchError', 'TypeMatchError', 'PathAccessError'):
+        planted = "'raise', '%s'" % out['raise'] in repr(case['spec'])      # a value spec's own callable raised it: not a rejection
+        if 'GlomError' in out.get('isa', []) and out['raise'] not in ('MatchError', 'TypeMatchError', 'PathAccessError') and not planted:
             return 'combinator rejection is %s, not a MatchError' % out['raise']
     return None
 
